@@ -206,7 +206,8 @@ type G struct {
 	features  map[string]int
 	curFunc   *funcSig
 	loopDepth int
-	sawU8     bool // the expression being generated mentions a uint8-spelled operand
+	sawU8     bool        // the expression being generated mentions a uint8-spelled operand
+	pkgVals   []*variable // package-level constants and globals (read-only in goose)
 }
 
 func (g *G) feat(s string) { g.features[s]++ }
@@ -380,6 +381,18 @@ func (g *G) structLit(sc *scope, s *StructT, depth int) string {
 var arithOps = []string{"+", "-", "*", "/", "%", "&", "|", "^", "<<", ">>"}
 
 func (g *G) intAtom(sc *scope, t *Ty) string {
+	if g.rng.Chance(6) {
+		var pv []*variable
+		for _, v := range g.pkgVals {
+			if v.t.eq(t) && sc.visible(v.name) == nil {
+				pv = append(pv, v)
+			}
+		}
+		if len(pv) > 0 {
+			g.feat("package-level-value")
+			return pv[g.rng.Intn(len(pv))].name
+		}
+	}
 	vs := g.varsOf(sc, t)
 	if len(vs) > 0 && g.rng.Chance(75) {
 		return g.useVar(vs[g.rng.Intn(len(vs))])
@@ -568,12 +581,16 @@ func (g *G) callExpr(sc *scope, t *Ty, depth int) string {
 	}
 	var cands []*funcSig
 	for _, f := range g.funcs {
-		if f == g.curFunc || f.recv != nil {
+		if f == g.curFunc {
 			continue
 		}
-		if len(f.results) == 1 && f.results[0].eq(t) {
-			cands = append(cands, f)
+		if len(f.results) != 1 || !f.results[0].eq(t) {
+			continue
 		}
+		if f.recv != nil {
+			continue // methods are called by methodCallStmt only
+		}
+		cands = append(cands, f)
 	}
 	if len(cands) == 0 {
 		return ""
@@ -913,9 +930,88 @@ func (g *G) stmt(sc *scope, depth int, tail tailKind, remaining int) {
 		g.copyStmt(sc)
 	case r < 95:
 		g.sliceStmt(sc)
+	case r < 96:
+		g.commaOkStmt(sc)
+	case r < 97:
+		g.appendSpreadStmt(sc)
+	case r < 99:
+		g.methodCallStmt(sc)
 	default:
 		g.declare(sc, depth > 0)
 	}
+}
+
+// methodCallStmt: t := r.m(args) as a statement of its own, with variables and literals as arguments. A
+// pointer-receiver method may write the receiver's fields, and Go leaves the order between a call and the
+// reads of variables in the same expression unspecified: the call is therefore never part of a larger
+// expression. The receiver has exactly the method's receiver type (the mixed forms are recorded findings).
+func (g *G) methodCallStmt(sc *scope) {
+	if g.loopDepth > 0 {
+		g.declare(sc, false)
+		return
+	}
+	perm := g.rng.Intn(len(g.funcs) + 1)
+	for k := 0; k < len(g.funcs); k++ {
+		f := g.funcs[(k+perm)%len(g.funcs)]
+		if f.recv == nil || f == g.curFunc || len(f.results) != 1 {
+			continue
+		}
+		rv := g.varsOf(sc, f.recv)
+		if len(rv) == 0 {
+			continue
+		}
+		r := rv[g.rng.Intn(len(rv))]
+		var args []string
+		for _, p := range f.params {
+			args = append(args, g.expr(sc, p, g.opt.MaxDepth))
+		}
+		n := g.fresh(sc, false)
+		g.feat("method-call-" + f.recv.K)
+		g.line("%s := %s.%s(%s)", n, g.useVar(r), f.name, strings.Join(args, ", "))
+		sc.vars = append(sc.vars, &variable{name: n, t: f.results[0], knownLen: -1})
+		return
+	}
+	g.declare(sc, false)
+}
+
+// commaOkStmt: v, ok := m[k]
+func (g *G) commaOkStmt(sc *scope) {
+	for _, m := range sc.lookupAll() {
+		if m.t.K == "map" {
+			m.used = true
+			k := g.expr(sc, m.t.Key, 1)
+			vn := g.fresh(sc, false)
+			sc.vars = append(sc.vars, &variable{name: vn, t: m.t.Elem, knownLen: -1})
+			on := g.fresh(sc, false)
+			sc.vars = append(sc.vars, &variable{name: on, t: TBool, knownLen: -1})
+			g.feat("map-get-comma-ok")
+			g.line("%s, %s := %s[%s]", vn, on, m.name, k)
+			return
+		}
+	}
+	g.declare(sc, false)
+}
+
+// appendSpreadStmt: a = append(a, b...) (outside loops: the length at most doubles)
+func (g *G) appendSpreadStmt(sc *scope) {
+	if g.loopDepth == 0 {
+		all := sc.lookupAll()
+		for _, a := range all {
+			if a.t.K != "slice" || !a.assignable || a.loopVar || a.ranging > 0 {
+				continue
+			}
+			for _, b := range all {
+				if b.t.K == "slice" && b.t.eq(a.t) {
+					a.used, b.used = true, true
+					g.feat("append-spread-" + a.t.Elem.K)
+					g.line("%s = append(%s, %s...)", a.name, a.name, b.name)
+					a.knownLen = -1
+					return
+				}
+			}
+		}
+	}
+	g.declare(sc, false)
 }
 
 func (g *G) retExprs(sc *scope) string {
@@ -1391,6 +1487,33 @@ func RandomPackage(rng *core.Rng, name string, opt Options) *Package {
 		g.line("")
 		g.structs = append(g.structs, s)
 	}
+	// package-level constants and globals (typed, literal initialisers)
+	for i := 0; i < rng.Intn(3); i++ {
+		t := []*Ty{TU64, TU64, TU32, TU8}[rng.Intn(4)]
+		// globals only: a constant would make the expressions it occurs in constant expressions, which the
+		// compiler evaluates exactly and rejects on overflow (constants are a place of the C01 matrix)
+		kw, nm := "var", fmt.Sprintf("G%d", i)
+		g.line("%s %s %s = %s", kw, nm, t.Go(), g.intLit(t))
+		g.line("")
+		g.pkgVals = append(g.pkgVals, &variable{name: nm, t: t, used: true, knownLen: -1})
+	}
+	// methods: pointer receivers and value receivers (called only on a receiver of exactly that type)
+	for si, st := range g.structs {
+		for k := 0; k < rng.Intn(3); k++ {
+			f := &funcSig{name: fmt.Sprintf("m%d_%d", si, k)}
+			if rng.Bool() {
+				f.recv = &Ty{K: "ptr", Elem: &Ty{K: "struct", S: st}}
+			} else {
+				f.recv = &Ty{K: "struct", S: st}
+			}
+			for j := 0; j < rng.Intn(3); j++ {
+				f.params = append(f.params, g.randType(false))
+			}
+			f.results = []*Ty{g.randType(false)}
+			g.genFunc(f)
+			g.funcs = append(g.funcs, f)
+		}
+	}
 	// functions
 	for i := 0; i < opt.NumFuncs; i++ {
 		f := &funcSig{name: fmt.Sprintf("f%d", i)}
@@ -1417,6 +1540,9 @@ func RandomPackage(rng *core.Rng, name string, opt Options) *Package {
 	var cases []string
 	for i := 0; i < len(g.funcs); i++ {
 		f := g.funcs[i]
+		if f.recv != nil {
+			continue // methods are reached through the functions that call them
+		}
 		for c := 0; c < opt.NumCases; c++ {
 			cn := fmt.Sprintf("case_%s_%d", f.name, c)
 			ok := true
@@ -1475,7 +1601,13 @@ func (g *G) genFunc(f *funcSig) {
 	if len(rts) > 1 {
 		rt = "(" + rt + ")"
 	}
-	g.line("func %s(%s) %s {", f.name, strings.Join(ps, ", "), rt)
+	if f.recv != nil {
+		body.vars = append(body.vars, &variable{name: "rc", t: f.recv, used: true, knownLen: -1})
+		g.feat("method-decl-" + f.recv.K)
+		g.line("func (rc %s) %s(%s) %s {", f.recv.Go(), f.name, strings.Join(ps, ", "), rt)
+	} else {
+		g.line("func %s(%s) %s {", f.name, strings.Join(ps, ", "), rt)
+	}
 	g.ind++
 	g.stmts(body, 2+g.rng.Intn(g.opt.MaxStmts), 0, tailReturn)
 	g.ind--
